@@ -306,6 +306,7 @@ type hijack struct {
 	trace    []scanRPC
 	tracing  bool
 	later    []string
+	leaks    []string
 	asyncSent int
 	failAt, failKind, failed int
 	failTxn                  *txnSpec
@@ -448,6 +449,26 @@ func (hj *hijack) pre(req *tikvrpc.Request) (*tikvrpc.Response, error) {
 		}
 		return e.bufferBatchGet(req)
 	case tikvrpc.CmdGet, tikvrpc.CmdBatchGet, tikvrpc.CmdScan:
+		// the request field: a transaction named in committed_locks must be committed at or below the
+		// version of THIS request (the mock store ignores the field, a real store reads through the lock)
+		if cl := req.Context.GetCommittedLocks(); len(cl) > 0 {
+			ver := uint64(0)
+			switch req.Type {
+			case tikvrpc.CmdGet:
+				ver = req.Get().Version
+			case tikvrpc.CmdBatchGet:
+				ver = req.BatchGet().Version
+			default:
+				ver = req.Scan().Version
+			}
+			for _, t := range cl {
+				if c := e.commitOfTxn(t); c == 0 || c > ver {
+					hj.mu.Lock()
+					hj.leaks = append(hj.leaks, fmt.Sprintf("%s\t%s", u64s(t), u64s(ver)))
+					hj.mu.Unlock()
+				}
+			}
+		}
 		hj.mu.Lock()
 		// fault class: the failAt-th Scan RPC is answered with a response-level lock error (no pairs): the
 		// scanner resolves the named lock (ResolveLocks, the write-side variant), backs off if it is alive,
@@ -575,6 +596,20 @@ func (e *env) bufferBatchGet(req *tikvrpc.Request) (*tikvrpc.Response, error) {
 		}
 	}
 	return &tikvrpc.Response{Resp: resp}, nil
+}
+
+// commitOfTxn: the commit ts of the transaction with this start ts according to the store (0: not committed)
+func (e *env) commitOfTxn(start uint64) uint64 {
+	for _, t := range e.h.txns {
+		if t.start == start {
+			for _, w := range e.mvcc.(mocktikv.MVCCDebugger).MvccGetByKey(e.phys(t.keys[0])).Writes {
+				if w.StartTs == start && w.Type != kvrpcpb.Op_Rollback {
+					return w.CommitTs
+				}
+			}
+		}
+	}
+	return 0
 }
 
 // arm makes the n-th Get/BatchGet RPC from now fail (kind 0: context.Canceled, 1: fabricated abort)
@@ -1547,6 +1582,9 @@ func runHistory(seed int64, hid int, tier string) {
 	e.hj.mu.Lock()
 	for _, l := range e.hj.later {
 		fmt.Fprintf(out, "LATER\t%d\t%s\t=>\tprobed\n", hid, l)
+	}
+	for _, l := range e.hj.leaks {
+		fmt.Fprintf(out, "LATER\t%d\t%s\t=>\tcommitted-lock-not-committed-at-request-ts\n", hid, l)
 	}
 	fmt.Fprintf(out, "LATER\t%d\tnone\tnone\t=>\tchecked\n", hid)
 	for _, a := range aliasLog {
